@@ -854,8 +854,15 @@ htp_status_t htp_connp_RES_HEADERS(htp_connp_t *connp) {
                 endwithcr = 1;
             } else {
                 // connp->out_next_byte == LF
-                OUT_PEEK_NEXT(connp);
                 lfcrending = 0;
+                if ((connp->out_current_read_offset == 1) && (connp->out_buf != NULL) &&
+                    (connp->out_buf_size > 0) && (connp->out_buf[connp->out_buf_size - 1] == CR)) {
+                    // This LF completes a CRLF that was split across two data chunks.
+                    endwithcr = 1;
+                    connp->out_next_byte = -1;
+                } else {
+                    OUT_PEEK_NEXT(connp);
+                }
                 if (connp->out_next_byte == CR) {
                     // hanldes LF-CR sequence as end of line
                     OUT_COPY_BYTE_OR_RETURN(connp);
